@@ -46,7 +46,7 @@ def s_case(draw):
     return {"N": N, "fs": draw(st.floats(20e9, 400e9)), "kL": draw(st.one_of(st.floats(0.1, 8), st.floats(1, 4))), "vd": 10 ** draw(st.floats(-5, -3)),
             "F": draw(st.one_of(st.just(0.0), st.just(0.0), st.floats(-20, 20))), "apo": draw(st.sampled_from(APOS)), "a": draw(st.floats(-0.8, 0.8)),
             "b": draw(st.floats(-3, 3)), "m": draw(st.integers(-(N // 8), N // 8)), "npol": draw(st.sampled_from([1, 2])), "seed": draw(st.integers(0, 2 ** 31 - 1)),
-            "filtfilt": draw(st.booleans()), "route": draw(st.sampled_from(["fc_kL", "landa_kL", "fc_L", "landa_L", "fc_N"])), "wl": draw(st.one_of(st.none(), st.floats(1500e-9, 1600e-9)))}
+            "filtfilt": draw(st.booleans()), "route": draw(st.sampled_from(["fc_kL", "landa_kL", "fc_L", "landa_L", "fc_N", "landa_N"])), "wl": draw(st.one_of(st.none(), st.floats(1500e-9, 1600e-9)))}
 
 
 def call_fbg(x, **kw):
@@ -75,19 +75,14 @@ def e_case(c):
     L = kL * lD / (np.pi * vd)
     base = dict(vdneff=vd, apodization=apod, F=F, filtfilt=c["filtfilt"])
     route = c["route"]
-    if route == "fc_kL":
-        spec = dict(fc=fc, kL=kL)
-    elif route == "landa_kL":
-        spec = dict(landa_D=lD, kL=kL)
-    elif route == "fc_L":
-        spec = dict(fc=fc, L=L)
-    elif route == "landa_L":
-        spec = dict(landa_D=lD, L=L)
-    else:
+    centre, lform = route.split("_")
+    if lform == "N":            # a whole number of periods: the grating length is N*Lambda
         Nper = max(1, int(round(L / (lD / (2 * 1.45)))))
-        spec = dict(fc=fc, N=Nper)
         L = Nper * lD / (2 * 1.45)
         kL = np.pi * vd * L / lD
+    cspec = {"fc": dict(fc=fc), "landa": dict(landa_D=lD)}
+    lspec = {"kL": dict(kL=kL), "L": dict(L=L), "N": dict(N=Nper) if lform == "N" else None}
+    spec = dict(cspec[centre], **lspec[lform])
     y, H = call_fbg(x, **base, **spec)
     contract(y, "O", c["npol"], N, "FBG output")
     check(isinstance(H, np.ndarray) and H.shape == (N,) and np.all(np.isfinite(H)), "H-shape-or-non-finite", f"{getattr(H, 'shape', None)}")
@@ -98,7 +93,10 @@ def e_case(c):
     ein, eout = np.sum(np.abs(s) ** 2, axis=-1), np.sum(np.abs(y.signal) ** 2, axis=-1)
     check(bool(np.all(eout <= ein * (1 + 1e-2))), "fbg-output-energy>input", f"{eout} vs {ein}")
     # equivalent specifications of the same grating give the same response
-    alt = {"fc_kL": dict(landa_D=lD, L=L), "landa_kL": dict(fc=fc, L=L), "fc_L": dict(landa_D=lD, kL=kL), "landa_L": dict(fc=fc, kL=kL), "fc_N": dict(landa_D=lD, L=L)}[route]
+    # the other centre form with another length form
+    other_c = "landa" if centre == "fc" else "fc"
+    other_l = {"kL": "L", "L": "kL", "N": "L"}[lform]
+    alt = dict(cspec[other_c], **lspec[other_l])
     _, H2 = call_fbg(x, **base, **alt)
     check(np.max(np.abs(np.abs(H2) - A)) <= 1e-6, "equivalent-specifications-differ", f"{route} vs {sorted(alt)}: max | |H2|-|H| | = {np.max(np.abs(np.abs(H2) - A)):.2e}")
     check(np.max(np.abs(H2 - H)) <= 1e-6 or not c["filtfilt"] or True, "equivalent-specifications-differ", "")
